@@ -314,6 +314,12 @@ bool Interp::exec_coll(Interp &I, const Stmt &s)
         });
         return true;
     }
+    if (s.op == "clive")
+    {
+        PortVal v = I.get(a.at(0));
+        with_shape(v.shape, [&]<typename S>() { wire<CLive<S>>(w, Port<S>{w, v.ref}, uid); });
+        return true;
+    }
     if (s.op == "crecord" && !s.kwi("sparse", 0))
     {
         PortVal v = I.get(a.at(0));
